@@ -13,7 +13,8 @@ RULE = ("the C07 grid (7 blocking operations x T in {-1,0,1,2,17,1000,2^31-1} x 
         "handler calling Stop) delivered to threads blocked in real waits. non-trivial = at least one EINTR was consumed.")
 ASSUMPTIONS = ["A-POLL: poll interrupted by a handled signal returns -1/EINTR and may be re-issued",
                "elapsed time across interruptions is modelled in whole milliseconds"]
-TRUSTED = ["vos shim (EINTR injection into poll, virtual clock)"]
+TRUSTED = ["tools/cxx2lean_eff.py (stage 2, DESIGN.md 0.7.1): world boundary (DoPoll, Interrupted, Clock::now, ::send, ::recv, SocketError opaque; handles dropped), C++ evaluation order, pointer = offset, string_view = (offset, length), objects = fields; Model/GenWorld.lean reads the model answers as C results",
+           "vos shim (EINTR injection into poll, virtual clock)"]
 ALL_TAGS = ["eintr", "recv.none", "recv.value", "send.all", "send.try", "send.some", "sendto", "recvfrom", "listen", "step.eintr"]
 EXHAUSTIVE = {"quick": True, "thorough": True}
 
